@@ -148,6 +148,16 @@ def r2_draws_recorded(ctx):
     cal = kinds.callers(prog, NEXT)
     kinds.check_who_may(ctx, "C01.R2", "caller of ExecutionState::next_u64", {kinds.root_fn(prog, k) for k in cal},
                         {"<shuttle::rand::rngs::ThreadRng as rand_core::RngCore>::next_u64"})
+    # ... and every value shuttle::rand hands out comes from such a draw made during THIS call: a value served from a buffer (the unused
+    # half of an earlier draw, a cache) is not in the recorded schedule at the position where the program received it
+    M_draw = prog.must_call({NEXT}) | {NEXT}
+    TR = "<shuttle::rand::rngs::ThreadRng as rand_core::RngCore>::"
+    for meth in ("next_u32", "next_u64"):          # fill_bytes goes through rand_core::impls::fill_bytes_via_next (C20.R4), i.e. through next_u64
+        mb = ctx.body(TR + meth, "C01.R2")
+        w = mb.path_exists(None, mb.is_return, lambda x, mb=mb: prog.site_calls(mb, x, M_draw))
+        ctx.ob("C01.R2", "value-comes-from-a-draw|" + meth, w is None,
+               "`ThreadRng::%s` makes a recorded draw on every path on which it returns a value" % meth if w is None else
+               "`ThreadRng::%s` can return a value without making a draw: the value comes from state that is not in the recorded schedule" % meth, loc=mb.loc())
 
 
 REINIT = "shuttle_engine::scheduler::data::DataSource::reinitialize"
